@@ -148,7 +148,11 @@ Section StreamFetch.
      or a head with a status and a body script *)
   Inductive resp :=
   | RNoHead
-  | RHead (status : Z) (b : bytes) (script : list sev).
+  | RHead (status : Z) (final : bytes) (b : bytes) (script : list sev).
+      (* [final]: `res.url()`, where the response finally came from (any URL: reqwest follows redirects inside send()) *)
+
+  (* the URL written into the note / the URL reported to the caller: requested or final, as the source says *)
+  Variable note_src report_src : urlsrc.
 
   Fixpoint lookup_stream (f : fs) (ss : list (server * resp)) : fs * option (T * bytes) * list Z :=
     match ss with
@@ -157,12 +161,12 @@ Section StreamFetch.
         let skip (g : fs) := let '(g', res, lg) := lookup_stream g rest in (g', res, s_id s :: lg) in
         match r with
         | RNoHead => skip f
-        | RHead code b script =>
+        | RHead code final b script =>
             if 400 <=? code then skip f
             else
-              let '(f1, res) := stream_fetch (s_env s) (s_url s) f b script in
+              let '(f1, res) := stream_fetch (s_env s) (pick_url note_src (s_url s) final) f b script in
               match res with
-              | FOk t => (f1, Some (t, s_url s), [s_id s])
+              | FOk t => (f1, Some (t, pick_url report_src (s_url s) final), [s_id s])
               | _ => skip f1
               end
         end
